@@ -6,6 +6,7 @@
 -/
 import PV.Model.PacketFrag
 import PV.Model.PacketWrite
+import PV.Model.PacketRekey
 import PV.Generated.C03
 namespace PV.Props.C01
 open PV PV.Packet
@@ -49,7 +50,7 @@ exactly what the sender authenticated, and is again keyed like the sender afterw
 theorem single_packet {p : Prims} (W : Laws p) {s : Sender p} {r : Receiver p} (hp : PairedSt W s r)
     {d rnd : Bytes} {o : SendOut p} (hs : sendMessage s d rnd = .ok o) (t : Bytes) :
     ∃ o' c body, d = c :: body ∧ runBuf (readMessage r) (o.wire ++ t) = .ok o' t ∧
-      o'.msg = ⟨c, body, s.seq⟩ ∧ o'.auth = o.auth ∧ PairedSt W o.st o'.st :=
+      o'.msg = ⟨c, body, s.seq⟩ ∧ o'.auth = o.auth ∧ PairedSt W o.st o'.st ∧ o'.raw = o.wire.length :=
   roundtrip1 W hp hs t
 
 /-- **Any history.** For every list of operations (messages of any sizes, cipher switches to any paired suite,
@@ -123,6 +124,50 @@ theorem write_all_any_schedule (sched : List SendEv) (out : Bytes) (it : Nat) (w
     (∀ wr, writeAll sched out it w = .ok wr → wr = w ++ out) ∧
     (∀ wr, writeAll sched out it w = .eof wr → ∃ k, wr = w ++ out.take k ∧ k < out.length) :=
   writeAll_spec sched out it w
+
+/-- **Rekey accounting: in-flight ≤ allowance ⇒ nothing is lost.** `read_message` counts packets and bytes; when its
+own threshold (`REKEY_PACKETS` / `REKEY_BYTES`) is reached it requests a rekey, and from then on it tolerates
+`REKEY_PACKETS_OVERFLOW_MAX` packets / `REKEY_BYTES_OVERFLOW_MAX` bytes before raising "Remote transport is ignoring
+rekey requests".  For every history: if every key epoch of what the sender put on the wire (`sentAccts`: its packet
+sizes between key switches) stays strictly below the allowance `L.ovPackets` / `L.ovBytes` — counting from the
+overflow counters' current values — then the receiver WITH the accounting delivers exactly the messages sent and
+stops without error, whatever the thresholds are and whenever the request is triggered. -/
+theorem roundtrip_with_rekey_accounting {p : Prims} (W : Laws p) (L : Limits) (ops : List (Op p))
+    (s : Sender p) (r : Receiver p) (k : RekeySt)
+    (hp : PairedSt W s r) (hok : ∀ op ∈ ops, OpOk W op)
+    (s' : Sender p) (w : Bytes) (log : List Auth) (hs : sendAll s ops = .ok (s', w, log)) (t : Bytes)
+    (hInFlight : RunOk L k.ovPackets k.ovBytes (sentAccts s ops)) :
+    recvAllK L r k ops (w ++ t) = (msgsOf s.seq ops, none) := by
+  have hacc := accts_seq W ops s r hp hok s' w log hs t
+  obtain ⟨k', hk'⟩ := accountAll_ok L (sentAccts s ops) k k.ovPackets k.ovBytes (Nat.le_refl _) (Nat.le_refl _) hInFlight
+  rw [← hacc] at hk'
+  rw [recvAllK_spec L ops r k (w ++ t) k' hk']
+  obtain ⟨h1, h2, _⟩ := roundtrip_seq W ops s r hp hok s' w log hs t
+  rw [h1, h2]
+
+/-- the accounting never alters what is delivered before it raises: on ANY byte string, if the accounting of the
+decoded packets does not raise, the deliveries and the stop reason are those of the receiver without accounting -/
+theorem accounting_is_transparent {p : Prims} (L : Limits) (ops : List (Op p)) (r : Receiver p) (k k' : RekeySt)
+    (buf : Bytes) (h : accountAll L k (recvAll r ops buf).accts = .ok k') :
+    recvAllK L r k ops buf = ((recvAll r ops buf).msgs, (recvAll r ops buf).stop) :=
+  recvAllK_spec L ops r k buf k' h
+
+/-- the allowance and the thresholds the theorems are instantiated with are the constants shipped in
+`class Packetizer` (regenerated from the source on every run) -/
+theorem shipped_limits_eq_generated :
+    (shippedLimits.rekeyPackets : Int) = PV.Generated.C03.rekey_packets ∧
+    (shippedLimits.rekeyBytes : Int) = PV.Generated.C03.rekey_bytes ∧
+    (shippedLimits.ovPackets : Int) = PV.Generated.C03.rekey_packets_overflow_max ∧
+    (shippedLimits.ovBytes : Int) = PV.Generated.C03.rekey_bytes_overflow_max := by
+  decide
+
+/-- with the shipped allowance of 2^29 packets / bytes, 80 packets of 100 bytes in flight behind the receiver's
+request are fine; an allowance of 64 packets does not cover 80 packets behind a request made after the 5th (the hypothesis is not vacuous either way) -/
+example : RunOk shippedLimits 0 0 ((List.replicate 80 (Acct.pkt 100)) ++ [.switch] ++ List.replicate 80 (Acct.pkt 52)) ∧
+    (match accountAll ⟨5, 1000000, 64, 1000000⟩ {} (List.replicate 80 (Acct.pkt 52)) with
+     | .error e => e == .ignoringRekey
+     | .ok _ => false) = true := by
+  decide +kernel
 
 /-- Every suite of the generated table meets the side conditions of `PairedSt` / `CiphPaired`:
 block size ≥ 4, AES-GCM rows carry the 16-byte tag as MAC length. -/
